@@ -51,7 +51,7 @@ pub fn render(s: &TypeSpec) -> Option<Rendered> {
     let f0 = &v0.fields[designated(v0, Tr::Deref)];
     let target = {
         let mut t = f0.ty.inst.as_str();
-        while let Some(r) = t.strip_prefix("&'static ") {
+        while let Some(r) = t.strip_prefix("&'static mut ").or_else(|| t.strip_prefix("&'static ")) {
             t = r;
         }
         t.to_string()
@@ -79,7 +79,8 @@ pub fn render(s: &TypeSpec) -> Option<Rendered> {
                 let v = &s.variants[vi];
                 let k = designated(v, tr);
                 let f = &v.fields[k];
-                let addr = if f.ty.refs > 0 { format!("(*a{k}) as *const {target} as *const u8") } else { format!("a{k} as *const {target} as *const u8") };
+                // the binding is a reference to the field; look through the field's own references as well
+                let addr = format!("&{}a{k} as *const {target} as *const u8", "*".repeat(f.ty.refs as usize + 1));
                 format!("{}({k}, {addr})", touch_all(v))
             },
             "unreachable!()",
@@ -88,7 +89,15 @@ pub fn render(s: &TypeSpec) -> Option<Rendered> {
     }
     // sentinel: the last value of the target's domain
     let sentinel = f0.ty.vals.last().cloned().unwrap_or_default();
-    let sentinel = if f0.ty.refs > 0 { sentinel.trim_start_matches('&').to_string() } else { sentinel };
+    let sentinel = if f0.ty.refs > 0 {
+        let e = sentinel.trim_start_matches('&').to_string();
+        match e.strip_prefix("::std::boxed::Box::leak(::std::boxed::Box::new(") {
+            Some(inner) => inner[..inner.len().saturating_sub(2)].to_string(),
+            None => e,
+        }
+    } else {
+        sentinel
+    };
     o.push_str("pub fn run(o: &mut Out) {\n    let n = vals().len();\n    for i in 0..n {\n        let mut x = vals().swap_remove(i);\n");
     o.push_str(&format!("        {{ let r: &{target} = &*x; let p = r as *const {target} as *const u8; let (k, q) = addr_deref(&x);\n"));
     o.push_str("          o.check(p == q, || format!(\"value {i}: &*x does not point at the designated field {k}\")); o.tally(\"derefs\", 1); }\n");
@@ -120,6 +129,12 @@ pub fn render(s: &TypeSpec) -> Option<Rendered> {
     }
     if s.all_fields().any(|f| f.ty.refs > 0 && f.is_marker(Tr::Deref) || f.ty.refs > 0 && s.variants.iter().any(|v| v.fields.len() == 1)) {
         classes.push("reference_field".to_string());
+    }
+    if s.all_fields().any(|f| f.ty.src.contains(" mut ")) {
+        classes.push("mutable_reference_field".to_string());
+    }
+    if s.all_fields().any(|f| f.ty.refs > 1) {
+        classes.push("double_reference_field".to_string());
     }
     Some(Rendered { observer: o, nontrivial: multi_target || not_first || differs, need_tallies: vec!["derefs"], classes })
 }
